@@ -127,7 +127,9 @@ type axiomDef struct {
 }
 
 func NewVC(mode Mode) *VC {
-	return &VC{byName: map[string]*Def{}, prelude: map[string]*Def{}, mode: mode}
+	vc := &VC{byName: map[string]*Def{}, prelude: map[string]*Def{}, mode: mode}
+	vc.DeclareRaw("VStr", "(declare-sort VStr 0)") // emitted only when referenced
+	return vc
 }
 
 func (vc *VC) fresh(prefix string) string {
